@@ -223,6 +223,33 @@ func storeOldFormat(self, work string, rng *Rng, res *Result) {
 		res.count("oldformat_not_supported")
 		return
 	}
+	// an upgraded shard: the old-format file stays in the directory for ever.  The last acknowledged
+	// assignment is the empty one (the shard went idle); a restart resumes that, not the old file.
+	up := base + "-up"
+	_ = os.RemoveAll(up)
+	_ = copyDir(base, up)
+	_ = storeLoad(up) // first start after the upgrade: saves in the new format, keeps targets.json
+	if out, err := exec.Command(self, "store-child", up, reqFile, "0", "none").CombinedOutput(); err != nil {
+		res.Notes = append(res.Notes, fmt.Sprintf("oldformat: unlimited child failed: %v %s", err, out))
+	} else {
+		_, errOld := os.Stat(filepath.Join(up, "targets.json"))
+		li := storeLoad(up)
+		res.Evaluations++
+		res.count("oldformat_leftover_then_empty")
+		if errOld == nil {
+			res.count("oldformat_leftover_file_present")
+		}
+		if li.Err != "" || !sameTargets(li.Targets, map[string][]*target.Target{}) || !li.Idle {
+			nt := 0
+			for _, ts := range li.Targets {
+				nt += len(ts)
+			}
+			res.ImplViol = capViol(res.ImplViol, Violation{Property: "C09", Clause: "oldFormat", Signature: "C09/oldFormat/leftover",
+				What: fmt.Sprintf("store directory of an upgraded shard (old-format file with 5 targets left behind); the last acknowledged assignment is the empty one; the next start resumes %d targets, idle=%v, error %q", nt, li.Idle, li.Err),
+				Case: map[string]interface{}{"case": StoreCase{Old: oldT, HadOld: true, Mode: "leftover"}}}, 2)
+		}
+	}
+	_ = os.RemoveAll(up)
 	L := int64(len(newBytes))
 	for _, mode := range []string{"kill-load", "efbig-load"} {
 		for _, n := range []int64{0, 1, L / 2, L - 1} {
